@@ -12,11 +12,15 @@ R(n, d) == LET g == Gcd(AbsZ(n), AbsZ(d)) IN
 RI(n) == <<n, 1>>
 RAdd(a, b) == R(a[1] * b[2] + b[1] * a[2], a[2] * b[2])
 RSub(a, b) == R(a[1] * b[2] - b[1] * a[2], a[2] * b[2])
-RMul(a, b) == R(a[1] * b[1], a[2] * b[2])
-RDiv(a, b) == R(a[1] * b[2], a[2] * b[1])                               \* b # 0
+\* cross-cancel before multiplying so that intermediate products stay small
+RMul(a, b) == LET g1 == Gcd(AbsZ(a[1]), b[2]) g2 == Gcd(AbsZ(b[1]), a[2]) IN
+              IF a[1] = 0 \/ b[1] = 0 THEN <<0, 1>>
+              ELSE R(QDiv(a[1], g1) * QDiv(b[1], g2), (a[2] \div g2) * (b[2] \div g1))
+RInv(b) == IF b[1] > 0 THEN <<b[2], b[1]>> ELSE <<0 - b[2], 0 - b[1]>>          \* b # 0
+RDiv(a, b) == RMul(a, RInv(b))
 RLt(a, b) == a[1] * b[2] < b[1] * a[2]
 RLe(a, b) == a[1] * b[2] <= b[1] * a[2]
-REq(a, b) == a[1] * b[2] = b[1] * a[2]
+REq(a, b) == a = b                    \* values are always normalised
 RMax(a, b) == IF RLt(a, b) THEN b ELSE a
 RMin(a, b) == IF RLt(a, b) THEN a ELSE b
 RNeg(a) == <<0 - a[1], a[2]>>
